@@ -9,3 +9,27 @@ Local Open Scope N_scope.
 Theorem ninjaparse_next_total : forall p, exists p', next p = Ok p'.
 Proof. exact next_total. Qed.
 Print Assumptions ninjaparse_next_total.
+
+(* parse_total: for EVERY byte string the parser model terminates within its fuel ([parse_fuel data] =
+   S (S (length data)) rounds of the loop of Parser::parse; S (S (unread bytes)) rounds of every inner loop):
+   OutOfFuel is unreachable *)
+Theorem ninjaparse_parse_tokens_total : forall data, exists ds, parse_tokens data = Ok ds.
+Proof. exact parse_tokens_total. Qed.
+Print Assumptions ninjaparse_parse_tokens_total.
+
+Theorem ninjaparse_parse_total : forall data, exists ds, parse data = Ok ds.
+Proof. exact parse_total. Qed.
+Print Assumptions ninjaparse_parse_total.
+
+Theorem ninjaparse_skip_past_eol_total : forall p, exists p', skip_past_eol p = Ok p'.
+Proof. exact skip_past_eol_total. Qed.
+Print Assumptions ninjaparse_skip_past_eol_total.
+
+(* one parseDecl call: total, consumes input (strictly unless it stops at EndOfFile), and re-establishes the lexing
+   mode None that `assert(lexer.getMode() == Lexer::LexingMode::None)` demands at the head of the loop *)
+Theorem ninjaparse_parse_decl_total : forall p, p_mode p = MNone ->
+  exists ds p', parse_decl p = Ok (ds, p') /\ p_mode p' = MNone /\
+    (unread (p_lex p') <= unread (p_lex p))%nat /\
+    (cur_kind p' <> TkEndOfFile -> (unread (p_lex p') < unread (p_lex p))%nat).
+Proof. exact parse_decl_total. Qed.
+Print Assumptions ninjaparse_parse_decl_total.
